@@ -1,5 +1,5 @@
 From Coq Require Import ExtrOcamlBasic.
-From MV Require Import Gen.Consts Crypto.CryptoPrims Crypto.CryptoSpec Crypto.CryptoModel.
+From MV Require Import Gen.Consts Crypto.CryptoPrims Crypto.CryptoSpec Crypto.CryptoModel Crypto.CryptoSym Crypto.CryptoSymModel.
 Extraction Language OCaml.
 Cd "../ocaml/gen".
 Extraction "m_c12.ml"
@@ -15,5 +15,8 @@ Extraction "m_c12.ml"
   hkdf_extract_sha256_spec hkdf_expand_sha256_spec hkdf_extract_sha384_spec hkdf_expand_sha384_spec hkdf_expand_sha1_spec
   hkdf_extract_sha256 hkdf_expand_sha256 hkdf_extract_sha384 hkdf_expand_sha384 hkdf_extract_sha1 hkdf_expand_sha1
   pbkdf2_sha1_spec pbkdf2_sha1
+  aes_cbc_encrypt_spec aes_cbc_decrypt_spec aes_cbc_encrypt_calls aes_cbc_decrypt_calls
+  aes_gcm_encrypt_spec aes_gcm_decrypt_spec aes_gcm_encrypt aes_gcm_decrypt aes_gcm_decrypt2 aes_gcm_reuse
+  chachapoly_seal_spec chachapoly_open_spec
   c_PS_ARG_FAIL c_PS_LIMIT_FAIL c_PS_AUTH_FAIL.
 Cd "../../coq".
